@@ -31,6 +31,7 @@ BUDGET_S = {"quick": 90, "thorough": 900}
 
 ST = {"its_evals": 0, "smarts_evals": 0, "skipped": {}}
 FAIL = []
+_finding = None
 _installed = [False]
 _current = [None]   # witness of the driver's current run (for violations raised inside monitors)
 
@@ -75,12 +76,31 @@ def template_class(A, B):
     return "mixed", balanced
 
 
+KF_RELAY = "explicit-h-relay-atom"
+
+
+def has_relay_atom(A, B):
+    """a heavy atom that loses a bond to one explicit hydrogen and gains a bond to another one (it both gives and
+    receives a migrating hydrogen); decided from the template alone."""
+    def hn(side, k):
+        return {x for e in side[1] if k in e for x in e if x != k and side[0].get(x, ("",))[0] == "H"}
+    for k, v in A[0].items():
+        if v[0] == "H" or k not in B[0]:
+            continue
+        a, b = hn(A, k), hn(B, k)
+        if (a - b) and (b - a):
+            return True
+    return False
+
+
 def check_reactor(rx, its_list=None, smarts=None):
     """called from the monitors; records problems in FAIL."""
     sides = template_sides(rx.template, rx.invert)
     if sides is None:
         return skip("template-unreadable")
     A, B = sides
+    global _finding
+    _finding = KF_RELAY if (rx.explicit_h and has_relay_atom(A, B)) else None
     cls, balanced = template_class(A, B)
     if rx.partial:
         return skip("partial")
@@ -102,17 +122,17 @@ def check_reactor(rx, its_list=None, smarts=None):
             try:
                 GA, GB = R.its_sides(g)
             except Exception as e:
-                FAIL.append(("its-malformed", wit, f"glued ITS #{k} cannot be read: {e}"))
+                FAIL.append((_finding, "its-malformed", wit, f"glued ITS #{k} cannot be read: {e}"))
                 continue
             ST["ident"] = ST.get("ident", 0) + 1
             if not R.same_labelled(R.labelled(R.implicit_form(GA)), hf):
-                FAIL.append(("substrate-altered", {**wit, "result_index": k},
+                FAIL.append((_finding, "substrate-altered", {**wit, "result_index": k},
                              f"reactant projection of glued ITS #{k} is not the substrate (atoms, hydrogen counts, charges or bonds differ)"))
                 continue
             ST["cg"] = ST.get("cg", 0) + 1
             cg = R.change_graph_from_sides(GA, GB)
             if not R.cg_iso(cg, tcg):
-                FAIL.append(("change-graph", {**wit, "result_index": k,
+                FAIL.append((_finding, "change-graph", {**wit, "result_index": k,
                                               "result_changes": sorted((sorted(e), d["d"]) for *e, d in cg.edges(data=True))[:8],
                                               "template_changes": sorted((sorted(e), d["d"]) for *e, d in tcg.edges(data=True))[:8]},
                              f"glued ITS #{k} does not differ from the substrate by exactly the template's changes"))
@@ -127,19 +147,19 @@ def check_reactor(rx, its_list=None, smarts=None):
         for k, s in enumerate(smarts):
             ST["smarts_results"] = ST.get("smarts_results", 0) + 1
             if not s or ">>" not in s:
-                FAIL.append(("smarts-malformed", wit, f"result #{k} is {s!r}"))
+                FAIL.append((_finding, "smarts-malformed", wit, f"result #{k} is {s!r}"))
                 continue
             a, b = s.split(">>")
             side = b if rx.invert else a
             if sub_frags is not None:
                 if R.fragments_canonical(side) != sub_frags:
-                    FAIL.append(("substrate-side", {**wit, "result": s}, f"result #{k}: the substrate side {side!r} is not the substrate"))
+                    FAIL.append((_finding, "substrate-side", {**wit, "result": s}, f"result #{k}: the substrate side {side!r} is not the substrate"))
                     continue
             if balanced:
                 ST["bal"] = ST.get("bal", 0) + 1
                 ca, cb = R.counts(a), R.counts(b)
                 if ca is None or cb is None or ca != cb:
-                    FAIL.append(("not-conserved", {**wit, "result": s}, f"result #{k} does not conserve elements/hydrogens/charge: {ca} vs {cb}"))
+                    FAIL.append((_finding, "not-conserved", {**wit, "result": s}, f"result #{k} does not conserve elements/hydrogens/charge: {ca} vs {cb}"))
 
 
 def install():
@@ -194,17 +214,17 @@ def flush(ctx):
         ctx.count("skipped/" + r, n)
     ST["skipped"] = {}
     seen = set()
-    for kind, wit, msg in FAIL:
+    for finding, kind, wit, msg in FAIL:
         key = (kind, str(wit.get("template_rid")), str(wit.get("substrate"))[:80], wit.get("dir"))
         if key in seen:
             continue
         seen.add(key)
-        ctx.violation(kind, wit, msg)
+        ctx.violation(kind, wit, msg, finding=finding)
     del FAIL[:]
 
 
 SYNTH_SUBSTRATES = ["ClCN", "C=CC=CC=C", "C=CC=C.C=C", "CC(=O)C.NCC", "CC=O.NO", "CC(=O)O.OC", "CCBr.N", "C=C.Br", "CC=C.Br",
-                    "NCCCl", "C1=CC=CC1.C=CC=O", "OCC(=O)O", "CC(=O)Cl.N", "C=CC(C)=C.C=CC(=O)OC"]
+                    "NCCCl", "C1=CC=CC1.C=CC=O", "OCC(=O)O", "CC(=O)Cl.N", "C=CC(C)=C.C=CC(=O)OC", "CC(C)=O.O", "CCC(C)=O.O"]
 SYNTH_TEMPLATES = [
     "[CH3:1][Cl:2].[NH3:3]>>[CH3:1][NH2:3].[ClH:2]",
     "[CH2:1]=[CH:2][CH:3]=[CH2:4].[CH2:5]=[CH2:6]>>[CH2:1]1[CH:2]=[CH:3][CH2:4][CH2:5][CH2:6]1",
@@ -213,6 +233,8 @@ SYNTH_TEMPLATES = [
     "[CH2:1]=[CH2:2].[BrH:3]>>[CH3:1][CH2:2][Br:3]",
     "[CH3:1][C:2](=[O:3])[CH3:4].[N:5]([H:7])([H:8])[CH3:6]>>[CH3:1][C:2](=[N:5][CH3:6])[CH3:4].[O:3]([H:7])[H:8]",
     "[CH3:1][Cl:2].[N:3]([H:4])([H:5])[H:6]>>[CH3:1][N:3]([H:5])[H:6].[Cl:2][H:4]",
+    # water relays a hydrogen: O6 gives H7 to the carbonyl oxygen and receives H5 from the alpha carbon
+    "[CH3:1][C:2](=[O:3])[CH2:4][H:5].[O:6]([H:7])[H:8]>>[CH3:1][C:2]([O:3][H:7])=[CH2:4].[O:6]([H:5])[H:8]",
 ]
 
 
